@@ -669,7 +669,11 @@ class MultiFit(FitBase):
         for _fit in self._fits:
             _cost_func = _fit._cost_function
             if _cost_func.add_determinant_cost and not (self._shared_error_nodes_initialized and _cost_func.is_chi2):
-                _cost -= _fit._nexus.get("total_cov_mat_log_determinant").value
+                # subtract the determinant term that was added by the cost function
+                if _cost_func.pointwise:
+                    _cost -= _fit._nexus.get("total_error_squared_log_sum").value
+                else:
+                    _cost -= _fit._nexus.get("total_cov_mat_log_determinant").value
         return self._cost_function.chi2_probability(_cost, self.ndf)
 
     # -- public methods
